@@ -22,8 +22,14 @@ Definition fd_of (seq : N) (to : bytes) (amt : Z) (h : hookp) : fdep :=
      fd_seq := seq; fd_height := 5; fd_base := [117; 97; 97]%N; fd_hook := h |}.
 Definition m_plain : fdep := fd_of 1 [4%N] 50 HNone.
 Definition m_zero : fdep := fd_of 1 [4%N] 0 HNone.
-Definition m_hookfail : fdep := fd_of 1 [4%N] 50 (HTx 4 0 true [(5%N, dA, 1000)]).
-Definition m_hookok : fdep := fd_of 1 [4%N] 50 (HTx 4 0 true [(5%N, dA, 20)]).
+Definition m_hookfail : fdep := fd_of 1 [4%N] 50 (HTx 4 0 true [HSend 5 dA 1000]).
+Definition m_hookok : fdep := fd_of 1 [4%N] 50 (HTx 4 0 true [HSend 5 dA 20]).
+
+(* the recipient's hook withdraws 20 of what it was just credited, back to L1 *)
+Definition m_hookwd : fdep := fd_of 1 [4%N] 50 (HTx 4 0 true [HWithdraw [4%N] [88%N] dA 20]).
+(* ... and then fails at the second message: nothing of the withdrawal may survive *)
+Definition m_hookwd_fail : fdep :=
+  fd_of 1 [4%N] 50 (HTx 4 0 true [HWithdraw [4%N] [88%N] dA 20; HSend 5 dA 1000]).
 
 Lemma ex_funds_sane m : funds_sane ex_cfg ex_init m.
 Proof. split; [done|]. intros a _. done. Qed.
@@ -139,4 +145,18 @@ Example ex_outcomes :
          getb (bk s') 4 dA = 0 ∧ getb (bk s') 5 dA = 0 ∧ gets (bk s') dA = 0 ∧ getseq s' 4 = 1%N).
 Proof.
   split; (eexists; split; [vm_compute; reflexivity|]; vm_compute; auto).
+Qed.
+
+(* a withdrawal carried by the hook: credited (A), one USER record with sequence 1, 20 burnt;
+   the same followed by a failing message: refunded (B), the only record is the refund, again
+   with sequence 1, nothing burnt *)
+Example ex_hook_withdrawals :
+  (∃ s', step ex_cfg ex_init (MFinalizeDeposit m_hookwd) = (s', Ok RSuccess) ∧
+         map (λ w, (w_seq w, w_refund w, w_amt w)) (wlog s') = [(1%N, false, 20)] ∧ next_l2 s' = 2%N ∧
+         getb (bk s') 4 dA = 30 ∧ gets (bk s') dA = 30 ∧ map d_ok (dlog s') = [true]) ∧
+  (∃ s', step ex_cfg ex_init (MFinalizeDeposit m_hookwd_fail) = (s', Ok RSuccess) ∧
+         map (λ w, (w_seq w, w_refund w, w_amt w)) (wlog s') = [(1%N, true, 50)] ∧ next_l2 s' = 2%N ∧
+         getb (bk s') 4 dA = 0 ∧ gets (bk s') dA = 0 ∧ map d_ok (dlog s') = [false]).
+Proof.
+  split; (eexists; split; [vm_compute; reflexivity|]; vm_compute; auto 10).
 Qed.
